@@ -1148,6 +1148,11 @@ impl Actor for NodeSession {
                                             crate::node::SessionCheckReply::NoOtherConnection
                                                 | crate::node::SessionCheckReply::ThisConnectionContinues
                                         ))
+                                        // A missed deadline decides nothing: the election run by the
+                                        // NodeServer on `ConnectionAuthenticated` stops a losing session.
+                                        // Stopping here could close the elected link after the
+                                        // duplicates were already closed, leaving no link at all.
+                                        | Ok(CallResult::Timeout)
                                     )
                                 } else {
                                     false
